@@ -68,7 +68,7 @@ PROFILE = {
 
 
 def plan(tier):
-    return 3000 if tier == "quick" else 60000
+    return 6000 if tier == "quick" else 60000
 
 
 def budget(tier):
